@@ -1706,6 +1706,15 @@ get_pure_virtual_funcs(VFunctions &funcs) const {
   for (vfi = vfuncs.begin(); vfi != vfuncs.end(); ++vfi) {
     CPPInstance *inst = (*vfi);
     if ((inst->_storage_class & CPPInstance::SC_pure_virtual) != 0) {
+      CPPFunctionType *ftype = inst->_type->as_function_type();
+      if (ftype != nullptr &&
+          (ftype->_flags & CPPFunctionType::F_destructor) != 0 &&
+          inst != get_destructor()) {
+        // This is the pure virtual destructor of a base class, and this class
+        // does not declare a destructor: the implicitly declared one
+        // overrides it, and is not pure.
+        continue;
+      }
       funcs.push_back(inst);
     }
   }
